@@ -86,6 +86,7 @@ func (t *Tree) parseUntilTag(start Pos, names ...string) (*BodyNode, error) {
 			return n, newUnexpectedEOFError(tok)
 
 		case tokenTagOpen:
+			mark := len(t.read)
 			t.next()
 			tok, err := t.expect(tokenName)
 			if err != nil {
@@ -94,7 +95,11 @@ func (t *Tree) parseUntilTag(start Pos, names ...string) (*BodyNode, error) {
 			if contains(names, tok.value) {
 				return n, nil
 			}
-			t.backup3()
+			// Not an end tag: push back everything read since the tag was opened.
+			// (Whitespace between the delimiter and the tag name is optional.)
+			for len(t.read) > mark {
+				t.backup()
+			}
 			o, err := t.parse()
 			if err != nil {
 				return n, err
